@@ -42,6 +42,10 @@ type ctxExtra struct {
 	lastIndirect map[string]bool
 	lastExprs   map[string][]ast.Expr
 	callOcc     map[*ast.CallExpr]int
+	closureMode bool
+	loopIdx     map[int]Val
+	loopColl    map[int]Val
+	captured    map[types.Object]Val
 	loopIndex   map[ast.Node]int
 	curLoop     ast.Node
 }
@@ -87,6 +91,11 @@ type FuncResult struct {
 func (e *Engine) verifyFunc(fi *FuncInfo) *FuncResult {
 	res := &FuncResult{Key: fi.Key}
 	con := fi.Contract
+	// "Func$N": the N-th function literal inside Func, verified as a function of its own
+	// (task closures, cleanup callbacks, goroutine bodies); captured variables are arbitrary
+	if base, nth, ok := strings.Cut(fi.Key, "$"); ok && fi.Decl == nil {
+		return e.verifyClosure(fi, base, nth)
+	}
 	if fi.Decl == nil || fi.Decl.Body == nil {
 		if con != nil && con.Trusted {
 			res.Trust = true
@@ -201,6 +210,10 @@ func (e *Engine) verifyFunc(fi *FuncInfo) *FuncResult {
 		}
 		return true
 	})
+	// ghost history of channel receives (recv_) starts empty
+	if et := c.recvElemType(env, []ast.Node{fi.Decl.Body}); et != nil {
+		st.ghost["recv_"] = env.zero(types.NewSlice(et))
+	}
 	fr := &frame{fi: fi, env: env, resultObjs: rs, sig: sig}
 	c.frames = []*frame{fr}
 	outs := c.execBlock(env, fi.Decl.Body.List, []*State{st})
@@ -317,9 +330,18 @@ func (c *Ctx) frameWrite(env *Env, st *State, key, ref string, pos token.Pos) {
 
 // runDefers executes deferred calls (unlock etc.) at a return.
 func (c *Ctx) runDefers(fr *frame, st *State) {
-	for i := len(fr.defers) - 1; i >= 0; i-- {
-		d := fr.defers[i]
-		d.env.eval(d.call, st)
+	var rest []deferredCall
+	var mine []deferredCall
+	for _, d := range st.defers {
+		if d.frame == fr {
+			mine = append(mine, d)
+		} else {
+			rest = append(rest, d)
+		}
+	}
+	st.defers = rest
+	for i := len(mine) - 1; i >= 0; i-- {
+		mine[i].env.eval(mine[i].call, st)
 	}
 }
 
@@ -619,4 +641,141 @@ func (c *Ctx) runDefersAll(fr *frame) {
 	for _, r := range fr.returns {
 		c.runDefers(fr, r.st)
 	}
+}
+
+// verifyClosure verifies the N-th function literal (source order) of an enclosing function.
+func (e *Engine) verifyClosure(fi *FuncInfo, base, nth string) *FuncResult {
+	res := &FuncResult{Key: fi.Key}
+	outer := e.funcs[base]
+	if outer == nil || outer.Decl == nil || outer.Decl.Body == nil {
+		res.Outside = "enclosing function " + base + " not found in the current tree"
+		return res
+	}
+	var lits []*ast.FuncLit
+	ast.Inspect(outer.Decl.Body, func(n ast.Node) bool {
+		if fl, ok := n.(*ast.FuncLit); ok {
+			lits = append(lits, fl)
+		}
+		return true
+	})
+	k := -1
+	fmt.Sscanf(nth, "%d", &k)
+	if k < 0 || k >= len(lits) {
+		res.Outside = fmt.Sprintf("%s has %d function literals, no #%s", base, len(lits), nth)
+		return res
+	}
+	lit := lits[k]
+	con := fi.Contract
+	fi.Pkg = outer.Pkg
+	c := newCtx(e, fi)
+	c.closureMode = true
+	defer func() {
+		if r := recover(); r != nil {
+			res.Outside = fmt.Sprintf("engine error: %v", r)
+			res.Obls = nil
+		}
+	}()
+	// evaluation scope: the enclosing function (so that captured names resolve)
+	scopeFi := &FuncInfo{Key: fi.Key, Pkg: outer.Pkg, Decl: outer.Decl, Obj: outer.Obj, Contract: con}
+	c.fi = scopeFi
+	env := &Env{c: c, fn: scopeFi, pkg: c.pkgRefOf(outer), bound: map[string]Val{}}
+	st := newState()
+	c.entry = st
+	bind := map[string]Val{}
+	info := outer.Pkg.TypesInfo
+	i := 0
+	for _, f := range lit.Type.Params.List {
+		for _, n := range f.Names {
+			if o, ok := info.Defs[n].(*types.Var); ok {
+				v := env.havoc(st, o.Name(), o.Type())
+				st.vars[o] = v
+				bind[o.Name()] = v
+				bind[fmt.Sprintf("arg%d", i)] = v
+			}
+			i++
+		}
+	}
+	var rs []*types.Var
+	if lit.Type.Results != nil {
+		for _, f := range lit.Type.Results.List {
+			for _, n := range f.Names {
+				if o, ok := info.Defs[n].(*types.Var); ok {
+					rs = append(rs, o)
+					st.vars[o] = env.zero(o.Type())
+				}
+			}
+		}
+	}
+	c.entryArgs = bind
+	sig, _ := info.TypeOf(lit).(*types.Signature)
+	if con != nil {
+		pre := c.closureContractEnv(env, lit, bind, nil, nil)
+		for _, r := range con.Requires {
+			st.assume(pre.evalBool(r.Expr, st))
+		}
+		for _, h := range con.Holds {
+			st.held[env.lockToken(pre, h, st)] = true
+		}
+	}
+	entrySnap := st.clone()
+	c.entry = entrySnap
+	c.loopIndex = map[ast.Node]int{}
+	ast.Inspect(lit.Body, func(n ast.Node) bool {
+		switch n.(type) {
+		case *ast.ForStmt, *ast.RangeStmt:
+			c.loopIndex[n] = len(c.loopIndex)
+		}
+		return true
+	})
+	fr := &frame{fi: scopeFi, env: env, resultObjs: rs, sig: sig}
+	c.frames = []*frame{fr}
+	outs := c.execBlock(env, lit.Body.List, []*State{st})
+	for _, o := range outs {
+		fr.returns = append(fr.returns, retState{st: o, vals: fr.namedResults(o)})
+	}
+	for ri, r := range fr.returns {
+		c.runDefers(fr, r.st)
+		if len(alive(r.st)) == 0 {
+			continue
+		}
+		if con != nil {
+			post := c.closureContractEnv(env, lit, bind, r.vals, entrySnap)
+			for kk, en := range con.Ensures {
+				g := post.evalBool(en.Expr, r.st)
+				c.addObl(r.st, fmt.Sprintf("post#%d@ret%d", kk, ri), "post", g, c.e.pos(lit.Pos()), "ensures "+en.Text, nil)
+			}
+		}
+		for _, kk := range sortedKeys(r.st.held) {
+			if !entrySnap.held[kk] {
+				c.addObl(r.st, fmt.Sprintf("lock/%s/released@ret%d", lockName(kk), ri), "lock", "false", c.e.pos(lit.Pos()), "lock released on every return path", nil)
+			}
+		}
+	}
+	for _, o := range c.obls {
+		o.Name = strings.Replace(o.Name, scopeFi.Key+"/", fi.Key+"/", 1)
+		o.Func = fi.Key
+	}
+	res.Obls = c.obls
+	res.Outside = c.outside
+	res.Notes = c.notes
+	for t := range c.trustedUsed {
+		res.Trusted = append(res.Trusted, t)
+	}
+	sort.Strings(res.Trusted)
+	res.Unspecified = sortedKeys(c.unspecified)
+	res.Callees = sortedKeys(c.calleesUsed)
+	if res.Outside != "" {
+		res.Obls = nil
+	}
+	return res
+}
+
+// closureContractEnv: contract expressions of a function literal are evaluated in the
+// scope at the start of its body (its parameters and the captured variables are visible).
+func (c *Ctx) closureContractEnv(env *Env, lit *ast.FuncLit, bind map[string]Val, results []Val, old *State) *Env {
+	ce := &Env{c: c, fn: env.fn, pkg: env.pkg, contract: true, scopePos: lit.Body.Lbrace + 1, bound: map[string]Val{}, results: results, old: old, noSafety: true}
+	for k, v := range bind {
+		ce.bound[k] = v
+	}
+	return ce
 }
